@@ -222,6 +222,20 @@ func runGen(c *ctx, co *corpus, tags string, per int, race bool) *genAgg {
 	var jobs []job
 	var args [][]string
 	procs := []int{16, 8, 2, 4, 16, 3}
+	if c.RS != nil {
+		// replay: the witnessed program only, scenarios 0..idx of its family, 20 fresh processes
+		n = 0
+		for k := 0; k < 20 && c.RS.Engine == "G"; k++ {
+			j := job{from: 0, count: 1, out: filepath.Join(co.Dir, fmt.Sprintf("g%d.json", k)), prog: filepath.Join(co.Dir, fmt.Sprintf("g%d.progress", k))}
+			jobs = append(jobs, j)
+			a := []string{"GOMAXPROCS=" + strconv.Itoa(procs[k%len(procs)]), co.Runner, "-seed", strconv.FormatUint(c.Seed, 10), "-only", c.RS.Program,
+				"-tags", c.RS.Tag, "-per", strconv.Itoa(c.RS.Idx + 1), "-out", j.out, "-progress", j.prog}
+			if race {
+				a = append(a, "-quiet")
+			}
+			args = append(args, a)
+		}
+	}
 	for from := 0; from < n; from += perBatch {
 		k := len(jobs)
 		j := job{from: from, count: perBatch, out: filepath.Join(co.Dir, fmt.Sprintf("g%d.json", k)), prog: filepath.Join(co.Dir, fmt.Sprintf("g%d.progress", k))}
